@@ -195,6 +195,52 @@ def rt_range(lo, hi, dflt) -> bool:
     return afmio.same(m, m2)
 
 
+def rt_ranges(k, bounds, dflt) -> bool:
+    """an integer domain made of k ranges (k concrete, all bounds and the default symbolic)."""
+    shape = (((), ()),)
+    names = NAMES[:3]
+    rng = [(bounds[2 * i], bounds[2 * i + 1]) for i in range(k)]
+    m = afmio.make(shape, [(1, 2)], names=names, attrs=[(1, 'cost', ('ranges', rng), str(dflt), '0'), (2, 'lvl', ('enum', ['a', 'b']), 'a', 'b')])
+    ph = [(4000 + 2 * i, 4001 + 2 * i) for i in range(k)]
+    with NoTracing():
+        ttext = AFMWriter(None, afmio.make(shape, [(1, 2)], names=names, attrs=[(1, 'cost', ('ranges', ph), '6666', '0'), (2, 'lvl', ('enum', ['a', 'b']), 'a', 'b')])).transform()
+        tree, tokens, errs = parse_text(ttext)
+        if errs:
+            raise RuntimeError('template does not parse: %r' % errs)
+        toks = [(t, t.text) for t in tokens]
+    # the text the real writer produces for the symbolic attribute must be the template text with the placeholders replaced
+    attr = [a for f in _index(m) for a in f.attributes if a.name == 'cost'][0]
+    piece = AFMWriter.read_attribute(attr)
+    with NoTracing():
+        tattr = [a for f in _index(afmio.make(shape, [(1, 2)], names=names, attrs=[(1, 'cost', ('ranges', ph), '6666', '0')])) for a in f.attributes if a.name == 'cost'][0]
+        tpiece = AFMWriter.read_attribute(tattr)
+    expected = tpiece
+    for i in range(k):
+        expected = expected.replace(str(ph[i][0]), '\x00%d\x00' % (2 * i)).replace(str(ph[i][1]), '\x00%d\x00' % (2 * i + 1))
+    parts = expected.replace('6666', '\x00d\x00').split('\x00')
+    built = ''
+    for j, part in enumerate(parts):
+        if j % 2 == 0:
+            built = built + part
+        elif part == 'd':
+            built = built + str(dflt)
+        else:
+            built = built + str(bounds[int(part)])
+    if not same_s(piece, built):
+        return False
+    for t, txt in toks:
+        if txt == '6666':
+            t.text = str(dflt)
+        else:
+            for i in range(k):
+                if txt == str(ph[i][0]):
+                    t.text = str(bounds[2 * i])
+                elif txt == str(ph[i][1]):
+                    t.text = str(bounds[2 * i + 1])
+    m2 = reader_on(tree).transform()
+    return afmio.same(m, m2)
+
+
 # -- native --------------------------------------------------------------------------------------
 
 def replay_file(shape, cards, names, attrs, trees):
@@ -221,6 +267,10 @@ def batch_files(max_n, lo, hi, seed):
             for fi in range(n):
                 if rnd.random() < 0.4:
                     attrs.append([fi, 'a%d' % fi, ['range', rnd.randint(0, 5), rnd.randint(5, 30)], str(rnd.randint(0, 9)), '0'])
+                if rnd.random() < 0.3:
+                    lo0 = rnd.randint(0, 3)
+                    rngs = [[lo0 + 10 * j, lo0 + 10 * j + rnd.randint(0, 8)] for j in range(rnd.randint(2, 4))]
+                    attrs.append([fi, 'r%d' % fi, ['ranges', rngs], str(rngs[-1][0]), '0'])
                 if rnd.random() < 0.3:
                     attrs.append([fi, 'lvl%d' % fi, ['enum', ['low', 'mid', 'high'][:rnd.randint(1, 3)]], 'low', 'high'])
             trees = []
@@ -320,6 +370,14 @@ def conditions(tier, seed):
     conds.append(Cond(name='c06_range', imports=imp0, params='lo: int, hi: int, dflt: int', pre=['0 <= lo <= hi <= 99', '0 <= dflt <= 99'],
                       body='P.rt_range(lo, hi, dflt)', timeout=T, aspect='integer range domain and default value -> INT tokens -> reader',
                       sample={'symbolic': 'range bounds and default (two digits)'}, validate=[(0, 10, 5), (7, 7, 7)]))
+    for k in ((2, 3) if tier == 'quick' else (2, 3, 4)):
+        bp = ', '.join('b%d: int' % i for i in range(2 * k))
+        conds.append(Cond(name='c06_ranges_%d' % k, imports=imp0, params=bp + ', dflt: int',
+                          pre=['0 <= b%d <= b%d <= 99' % (2 * i, 2 * i + 1) for i in range(k)] + ['0 <= dflt <= 99'],
+                          body='P.rt_ranges(%d, [%s], dflt)' % (k, ', '.join('b%d' % i for i in range(2 * k))), timeout=T,
+                          aspect='integer domain of %d ranges: writer text tied to the pieces, INT tokens -> reader' % k,
+                          sample={'symbolic': 'bounds of %d ranges and the default (two digits)' % k},
+                          validate=[tuple([1, 5, 7, 10, 12, 12, 20, 30][:2 * k]) + (5,), tuple([0] * (2 * k)) + (0,)]))
     return conds
 
 
